@@ -9,14 +9,22 @@ LEVEL = 'fault_enumeration'
 EPS = 0.001
 KW = {'transport_timeout_s': 0.1, 'read_timeout_s': 0.2}
 RULE = ('scenario connect, a streaming_shell left suspended after its first item (so its packets get parked), shell, stat, list, pull, push (2 WRTE), streaming_shell, rest of the suspended stream; a fault {timeout exception once, sticky connection reset, sticky end-of-stream} injected at EVERY index of the '
-        'transport-call sequence (connect / bulk_read / bulk_write), then (close | nothing), connect to a healthy device and the whole scenario again; pairs: a second fault at every index of the '
+        'transport-call sequence (connect / bulk_read / bulk_write), then (close | nothing), connect to a healthy device and the whole scenario again; the same single faults over two more scenarios (a handshake through the public-key offer; a directory push whose files must all arrive whenever push returns normally); pairs: a second fault at every index of the '
         'recovery pass (quick: every 4th index, stated cap); single faults also over a transport that splits every block in two (faults inside headers and payloads) and with the broken session\'s undelivered packets arriving after the next CNXN; both twins; oracle: each call raises or returns the solo result, never a wrong value; afterwards no internal lock is held, close() and '
         'connect() complete under the call watchdog, the packet store is empty after connect(), the replayed scenario returns the solo results and the model filesystem receives the right file; '
         'the device wire order between the suspended stream and the running one is a budgeted choice (<=1 deviation for single faults); non-trivial = every case; distinct = distinct (fault indices, kinds, close?, twin, choices)')
 ASSUMPTIONS = ['adbsim device model; a new connection carries no stale bytes (as a new TCP connection does)', 'lock state is read from the object\'s Lock attributes after each pass']
 
 
-def ops():
+DIRFILES = {'a.txt': scen.push_data(3000), 'b.bin': scen.push_data(100)[::-1], 'c.txt': b''}
+CON_PUB = {'_sim': {'auth': {'first': 'token', 'sig': 'token', 'pub': 'cnxn'}}, '_keys': [0], 'auth_timeout_s': 0.3}
+
+
+def ops(opset='std'):
+    if opset == 'dirpush':
+        return [('push', ('dir', DIRFILES, 'elsewhere'), '/dir', dict(KW, mtime=7)), ('stat', '/f', dict(KW))]
+    if opset == 'auth':
+        return [('shell', 'c', dict(KW, decode=False)), ('stat', '/f', dict(KW))]
     return [('gen-start', 'other', dict(KW, decode=False)), ('shell', 'c', dict(KW, decode=False)), ('stat', '/f', dict(KW)), ('list', '/d', dict(KW)), ('pull', '/f', 'bytesio', dict(KW)),
             ('push', ('bytes', scen.push_data(5000)), '/g', dict(KW, mtime=7)), ('streaming_shell', 'c', dict(KW, decode=False)), ('gen-rest', 0)]
 
@@ -27,15 +35,19 @@ CFG['shell'][b'shell:other'] = [b'other-1', b'other-2', b'other-3']
 _SOLO = {}
 
 
-def solo(twin, policy=None):
-    key = (twin, policy)
+def con_kw(opset):
+    return dict(KW, **CON_PUB) if opset == 'auth' else dict(KW)
+
+
+def solo(twin, policy=None, opset='std'):
+    key = (twin, policy, opset)
     if key not in _SOLO:
         cfg = dict(CFG)
         if policy:
             cfg['frag_policy'] = policy
         s = Session(FixedChooser(), cfg, twin=twin, eps=EPS)
         try:
-            res = [s.op(('connect', dict(KW)))] + [s.op(o) for o in ops()]
+            res = [s.op(('connect', con_kw(opset)))] + [s.op(o) for o in ops(opset)]
             assert all(r[0] == 'ok' for r in res), res
             _SOLO[key] = (res, s.env.calls)
         finally:
@@ -50,7 +62,8 @@ def locks_of(dev):
 
 def run_fault(params, ch):
     twin = params['twin']
-    want, ncalls = solo(twin, params.get('policy'))
+    opset = params.get('opset', 'std')
+    want, ncalls = solo(twin, params.get('policy'), opset)
     cfg = dict(CFG)
     cfg['faults'] = {int(k): v for k, v in params['faults']}
     if params.get('policy'):
@@ -66,7 +79,8 @@ def run_fault(params, ch):
         while passes < len(params['faults']) + 2:
             passes += 1
             calls0 = s.env.calls
-            r = s.op(('connect', dict(KW)))
+            sends0 = len(s.env.fs.sends)
+            r = s.op(('connect', con_kw(opset)))
             results = [r]
             del s.gens[:]
             if r == ('ok', True):
@@ -76,11 +90,17 @@ def run_fault(params, ch):
                         viol.append({'msg': 'pass %d: packet store holds %d stream(s) right after connect()' % (passes, n)})
                 except AttributeError:
                     pass
-                for i, o in enumerate(ops()):
+                for i, o in enumerate(ops(opset)):
                     r = s.op(o)
                     results.append(r)
                     if r[0] != 'ok':
                         break
+                    if opset == 'dirpush' and o[0] == 'push':
+                        got = sorted((x[0], x[3]) for x in s.env.fs.sends[sends0:])
+                        exp = sorted((('/dir/%s' % n).encode(), d) for n, d in DIRFILES.items())
+                        if got != exp:
+                            viol.append({'msg': 'pass %d: push of a directory returned normally but the device received %r instead of %r (faults %r)' % (
+                                passes, [(p, len(d)) for p, d in got], [(p, len(d)) for p, d in exp], params['faults'])})
             # every call either raised or returned the solo value
             for i, r in enumerate(results):
                 if r[0] == 'ok' and r != want[i]:
@@ -109,7 +129,7 @@ def run_fault(params, ch):
                     viol.append({'msg': 'available is True after close()'})
         if not ok and not viol:
             viol.append({'msg': 'scenario never succeeded after %d passes although all faults were consumed (faults %r, failures %r)' % (passes, params['faults'], raised)})
-        if ok:
+        if ok and opset == 'std':
             last = s.env.fs.sends[-1] if s.env.fs.sends else None
             if not last or last[0] != b'/g' or last[3] != scen.push_data(5000):
                 viol.append({'msg': 'after recovery the device filesystem received %r' % (last and (last[0], len(last[3])),)})
@@ -152,6 +172,14 @@ def parts(tier):
                     sc.append({'twin': t, 'faults': [[k, kind]], 'close': close, 'stale': True})
     out.append(Part('single-faults-stale-packets', sc, run_fault, {'dev-order': 0}, what='whole packets of the broken session are delivered after the CNXN of the next session (unflushed pipe / slow device)',
                     bound='%d cases' % len(sc)))
+    for opset, what in (('auth', 'a connect() that goes through signature rejection and the public-key offer, then shell and stat'), ('dirpush', 'a push of a directory of three files, then stat')):
+        sc = []
+        for t in twins:
+            n = solo(t, None, opset)[1]
+            for k in range(n):
+                for kind in KINDS:
+                    sc.append({'twin': t, 'faults': [[k, kind]], 'close': k % 2 == 0, 'opset': opset})
+        out.append(Part('single-faults-%s' % opset, sc, run_fault, {'dev-order': 0}, what='one fault at every transport-call index x 4 kinds for another scenario: %s' % what, bound='%d cases' % len(sc)))
     sc = []
     step = 4 if tier == 'quick' else 1
     for t in twins:
